@@ -248,13 +248,14 @@ def _host_reference(shapes, skipNone):
                 yield it
 
 
-def _host_consume(stream, takes, hop):
+def _host_consume(stream, takes, hop, use_send=False):
     import threading
     got = []
 
     def one():
         try:
-            v = next(stream)
+            # a consumer may ask for the next item with send(value) just as well: the stream does not listen to what it is sent
+            v = stream.send(('sent', len(got))) if (use_send and got) else next(stream)
             got.append(('v', v, list(_HOST_LOG)))
         except StopIteration:
             got.append(('end', None, list(_HOST_LOG)))
@@ -284,7 +285,7 @@ def _host_consume(stream, takes, hop):
     return got
 
 
-def _host_body(shapes, skipNone, takes, hop, use_library):
+def _host_body(shapes, skipNone, takes, hop, use_library, use_send=False):
     global _HOST_SHAPES
     _HOST_SHAPES = shapes
     del _HOST_LOG[:]
@@ -293,7 +294,7 @@ def _host_body(shapes, skipNone, takes, hop, use_library):
         stream = pipeline(0, skipNone=skipNone)(_host_f)(_HostSrc(len(shapes)))
     else:
         stream = _host_reference(shapes, skipNone)
-    return _host_consume(stream, takes, hop)
+    return _host_consume(stream, takes, hop, use_send)
 
 
 def _host_child(conn, args):
@@ -304,13 +305,13 @@ def _host_child(conn, args):
     conn.close()
 
 
-def _host_run(shapes, skipNone, takes, host, hop):
+def _host_run(shapes, skipNone, takes, host, hop, use_send=False):
     """runs in a forked child of the check"""
-    want = _host_body(shapes, skipNone, takes, False, False)
+    want = _host_body(shapes, skipNone, takes, False, False, use_send)
     if host == 'mp-process':
         import multiprocessing as mp
         a, b = mp.Pipe()
-        pr = mp.Process(target=_host_child, args=(b, (shapes, skipNone, takes, hop, True)))
+        pr = mp.Process(target=_host_child, args=(b, (shapes, skipNone, takes, hop, True, use_send)))
         pr.start()
         if not a.poll(30):
             pr.kill()
@@ -320,15 +321,18 @@ def _host_run(shapes, skipNone, takes, host, hop):
         if st != 'ok':
             return dict(want=want, got=[('exc', got, [])])
     else:
-        got = _host_body(shapes, skipNone, takes, hop, True)
+        got = _host_body(shapes, skipNone, takes, hop, True, use_send)
     return dict(want=want, got=got)
 
 
-def hosted_stream_cases(ctx):
+def hosted_stream_cases(ctx, only_send=False):
     """the in-process stream is an ordinary generator: which thread asks for the next item, and which process of the program hosts the stream,
     changes nothing — same items, and after every hand-over exactly the same draws and inner-iterator steps as the spelled-out expansion"""
     rng = ctx.rng
-    for host, hop, full in [('main', True, True), ('main', True, False), ('mp-process', False, False), ('mp-process', True, True)]:
+    for host, hop, full, use_send in [('main', True, True, False), ('main', True, False, False), ('mp-process', False, False, False), ('mp-process', True, True, False),
+                                     ('main', False, True, True), ('main', False, False, True)]:
+        if only_send and not use_send:
+            continue
         n = rng.choice([3, 4, 6])
         shapes = []
         for i in range(n):
@@ -342,10 +346,10 @@ def hosted_stream_cases(ctx):
         skip = rng.choice([True, False])
         total = sum((1 if sh[0] == 'plain' else len(sh[1])) for sh in shapes)
         takes = total + 1 if full else rng.choice([2, 3, total // 2 + 1, total + 1])
-        case = dict(hosted_stream=host, next_calls_from_fresh_threads=hop, shapes=shapes, skipNone=skip, takes=takes)
-        ctx.case(('hosted', host, hop, repr(shapes), skip, takes), True, sample=case)
-        ctx.count('hosted:' + host + ('+threads' if hop else ''))
-        st, r = pipelib.isolated(_host_run, (shapes, skip, takes, host, hop), timeout=60)
+        case = dict(hosted_stream=host, next_calls_from_fresh_threads=hop, consumer_uses_send=use_send, shapes=shapes, skipNone=skip, takes=takes)
+        ctx.case(('hosted', host, hop, use_send, repr(shapes), skip, takes), True, sample=case)
+        ctx.count('hosted:' + host + ('+threads' if hop else '') + ('+send' if use_send else ''))
+        st, r = pipelib.isolated(_host_run, (shapes, skip, takes, host, hop, use_send), timeout=60)
         if st != 'ok':
             ctx.fail('hosted-stream-fails', 'in-process stream hosted in %s%s: %s %s' % (host, ' with next() from fresh threads' if hop else '', st, str(r)[-300:]), case)
             continue
@@ -397,6 +401,19 @@ def _held_body(shapes, skipNone, takes, way, use_library):
             stream.throw(KeyError('stop'))
         except KeyError:
             pass
+    elif way == 'throw-stopiteration':
+        # thrown into a generator, StopIteration does not end it quietly: PEP 479 turns it into RuntimeError, the stream is over
+        try:
+            extra = stream.throw(StopIteration('stop'))
+            got.append(('throw-returned', extra))
+        except RuntimeError as e:
+            got.append(('RuntimeError', type(e.__cause__).__name__))
+        except StopIteration:
+            got.append(('StopIteration',))
+        try:
+            got.append(('then', next(stream)))
+        except StopIteration:
+            got.append(('then', 'stop'))
     else:
         del stream
         gc.collect()
@@ -412,7 +429,7 @@ def held_iterator_cases(ctx):
     """an iterator the function returns may be kept by somebody else as well: a stream that is stopped while inside it has taken the items it
     was asked for and nothing else — the unread rest is still there for its owner (the stage neither drains nor closes what it borrowed)"""
     rng = ctx.rng
-    for way in ('close', 'throw', 'drop'):
+    for way in ('close', 'throw', 'drop', 'throw-stopiteration'):
         shapes = [('plain', 100), ('iter', [10, 11, None, 13, 14, 15]), ('plain', 102), ('iter', [30, 31])]
         if rng.random() < 0.5:
             shapes = shapes[1:]
